@@ -59,6 +59,8 @@ func main() {
 		os.Exit(cmdCheck(os.Args[2:]))
 	case "explain":
 		os.Exit(cmdExplain(os.Args[2:]))
+	case "sweep":
+		os.Exit(cmdSweep(os.Args[2:]))
 	case "list":
 		var ids []string
 		for id := range props {
@@ -182,4 +184,61 @@ func runControls(verifDir, repo, prop string) map[string]interface{} {
 		}
 	}
 	return map[string]interface{}{"controls_applicable": sum[prop].Applicable, "controls_detected": sum[prop].Detected, "controls_not_detected": missed}
+}
+
+// cmdSweep loads the repository once, runs the rules of every property and
+// prints one JSON object {property: [violated rule ids...]} — used by the
+// mutation sweep. It writes no evidence and prints no VIOLATION lines.
+func cmdSweep(args []string) int {
+	fs := flag.NewFlagSet("sweep", flag.ExitOnError)
+	repo := fs.String("repo", "/repo", "repository root")
+	fs.Parse(args)
+	abs, _ := filepath.Abs(*repo)
+	out := map[string][]string{}
+	p, err := Load(abs, false, "")
+	if err != nil {
+		out["load"] = []string{err.Error()}
+		b, _ := json.Marshal(out)
+		fmt.Println(string(b))
+		return 0
+	}
+	var ids []string
+	for id := range props {
+		ids = append(ids, id)
+	}
+	sort.Strings(ids)
+	a := &Analysis{P: p}
+	for _, id := range ids {
+		func() {
+			c := NewCheck(p, id, "quick")
+			defer func() {
+				if r := recover(); r != nil {
+					out[id] = append(out[id], fmt.Sprintf("panic: %v", r))
+				}
+			}()
+			props[id].Run(c, a)
+			seen := map[string]bool{}
+			for _, o := range c.Obs {
+				if !o.OK && !seen[o.Rule] {
+					seen[o.Rule] = true
+					out[id] = append(out[id], o.Rule)
+				}
+			}
+			if len(c.undec) > 0 {
+				out[id] = append(out[id], "undecided")
+			}
+			perRule := map[string]int{}
+			for _, o := range c.Obs {
+				perRule[o.Rule]++
+			}
+			for _, r := range c.order {
+				if perRule[r] < c.floors[r] {
+					out[id] = append(out[id], "vacuous:"+r)
+				}
+			}
+		}()
+	}
+	b, _ := json.Marshal(out)
+	fmt.Println(string(b))
+	return 0
 }
